@@ -344,6 +344,20 @@ Section Reals.
     intros v Hv. apply knormable_R in Hv. cbn. split; [apply sqrt_sqrt; lra | lra].
   Qed.
 
+  (* the Hermitian test (np.allclose based) accepts every exactly symmetric real matrix, dense or sparse *)
+  Lemma detect_symmetric_R (sp : bool) (A : matR) :
+    (forall i j, (i < length A)%nat -> (j < length A)%nat -> entry A i j = entry A j i) ->
+    is_hermitian_mat opsR sp A = true.
+  Proof.
+    intros Hsym. unfold is_hermitian_mat. apply forallb_forall. intros i Hi. apply forallb_forall. intros j Hj.
+    apply in_seq in Hi. apply in_seq in Hj. cbn [kconj ksmall_np kclose_np opsR].
+    rewrite (Hsym i j) by lia.
+    destruct sp; apply Rleb_true; cbn [nsub NumR].
+    - replace (entry A j i - entry A j i) with 0 by ring. rewrite Rabs_R0. lra.
+    - replace (entry A j i - entry A j i) with 0 by ring. rewrite Rabs_R0.
+      pose proof (Rabs_pos (entry A j i)). lra.
+  Qed.
+
   (* the sign rule: after scaling, the mean entry is non-negative *)
   Lemma sign_aux (S n s : R) : 0 < s ->
     0 <= (S * ((if Rleb 0 (S / n) then 1 else - (1)) / s)) / n.
